@@ -113,7 +113,7 @@ def run_shard(spec, rng, ctx):
     # (3) random large vectors
     while time.time() < end:
         nb = rng.randint(1, 9)
-        hi = rng.choice([10, 1000, 10 ** 6, 10 ** 9])
+        hi = rng.choice([10, 1000, 10 ** 6, 10 ** 9, 2 ** 40, 2 ** 49])
         vec = [rng.randint(0, hi) for _ in range(nb)]
         for case in cases_for(vec, rng):
             judge(case, ctx)
